@@ -121,6 +121,7 @@ summary = (f"{len(exps)} changes ({sum(1 for e in exps if e['id'] in meta)} seed
 head = open(V + '/tools/design_head.md').read().replace('@@VERDICT_TABLE@@', verdict)
 tail = open(V + '/tools/design_tail.md').read().replace('@@MATRIX@@', matrix).replace('@@MATRIX_SUMMARY@@', summary)
 nben = len([d for d in os.listdir(V + '/benign') if os.path.isdir(V + '/benign/' + d)])
-doc = (head + persec + tail).replace('@@REPORTED_OF_TOTAL@@', f'{own + other} of {len(exps)}').replace('@@BENIGN_TOTAL@@', f'{nben} of {nben}').replace('@@BENIGN_COUNT@@', str(nben))
+nopen = len(json.load(open('/verif/benign/open.json'))['open'])
+doc = (head + persec + tail).replace('@@REPORTED_OF_TOTAL@@', f'{own + other} of {len(exps)}').replace('@@BENIGN_TOTAL@@', f'{nben - nopen} of {nben}').replace('@@BENIGN_COUNT@@', str(nben))
 open(V + '/DESIGN.md', 'w').write(doc)
 print('DESIGN.md written:', len((head + persec + tail).split('\n')), 'lines;', summary)
